@@ -296,17 +296,24 @@ class SBytes:
         if name == "iso8859-1" and errors == "strict":
             # latin-1 decodes every byte to the code point of the same value
             return mkstr([x if isinstance(x, int) else z3.ZeroExt(CPW - 8, item_bv(x)) for x in self.items])
-        if name != "cp1252" or errors != "strict":
+        if name != "cp1252" or errors not in ("strict", "surrogateescape"):
             raise Unsupported(f"SBytes.decode({encoding!r}, {errors!r})")
+        esc = errors == "surrogateescape"  # PEP 383: an undecodable byte b becomes U+DC00+b
         out = []
         for i, x in enumerate(self.items):
             if isinstance(x, int):
                 if DEC[x] is None:
+                    if esc:
+                        out.append(0xDC00 + x)
+                        continue
                     raise UnicodeDecodeError("charmap", bytes([x]), 0, 1, "character maps to <undefined>")
                 out.append(DEC[x])
                 continue
             b = item_bv(x)
             if not branch(dec_ok_e(b)):
+                if esc:
+                    out.append(z3.simplify(z3.ZeroExt(CPW - 8, b) + 0xDC00))
+                    continue
                 raise UnicodeDecodeError("charmap", b"?", 0, 1, f"character maps to <undefined> (symbolic byte {i})")
             out.append(z3.simplify(dec_e(b)))
         return mkstr(out)
@@ -478,16 +485,23 @@ class SStr:
                     raise UnicodeEncodeError("latin-1", "?", 0, 1, f"ordinal not in range(256) (symbolic char {i})")
                 out.append(z3.simplify(z3.Extract(7, 0, x)))
             return mkbytes(out)
-        if name != "cp1252" or errors != "strict":
+        if name != "cp1252" or errors not in ("strict", "surrogateescape"):
             raise Unsupported(f"SStr.encode({encoding!r}, {errors!r})")
+        esc = errors == "surrogateescape"  # PEP 383: a lone surrogate U+DC80..U+DCFF becomes the byte cp-0xDC00
         out = []
         for i, x in enumerate(self.items):
             if isinstance(x, int):
                 if x not in ENC:
+                    if esc and 0xDC80 <= x <= 0xDCFF:
+                        out.append(x - 0xDC00)
+                        continue
                     raise UnicodeEncodeError("charmap", "?", 0, 1, "character maps to <undefined>")
                 out.append(ENC[x])
                 continue
             if not branch(enc_ok_e(x)):
+                if esc and branch(z3.And(z3.UGE(x, 0xDC80), z3.ULE(x, 0xDCFF))):
+                    out.append(z3.simplify(z3.Extract(7, 0, x - 0xDC00)))
+                    continue
                 raise UnicodeEncodeError("charmap", "?", 0, 1, f"character maps to <undefined> (symbolic char {i})")
             out.append(z3.simplify(enc_e(x)))
         return mkbytes(out)
